@@ -631,6 +631,7 @@ int eng_conn(FILE *in, FILE *out)
             snprintf(res, sizeof(res), "rc %d", rc);
         } else if (n == 1 && !strcmp(tok[0], "uhandlers")) {
             xmpp_handler_add(g_conn, user_stanza_handler, NULL, NULL, NULL, NULL);
+            xmpp_id_handler_add(g_conn, user_stanza_handler, "uid1", NULL);
             xmpp_timed_handler_add(g_conn, user_timed_handler, 1000, NULL);
         } else if (n == 1 && !strcmp(tok[0], "smcb")) {
             xmpp_conn_set_sm_callback(g_conn, sm_cb, NULL);
